@@ -238,6 +238,10 @@ func (w *JWorld) Open(c *simrt.Chooser, doc *JDoc) J {
 	doc.OpenOrder = w.openCount
 	doc.Open = true
 	doc.LSPVer++
+	if doc.LSPVer > 1 && c.Pct("version-restarts", 50) {
+		// a client is free to number the versions of a re-opened document from 1 again
+		doc.LSPVer = 1
+	}
 	text := w.NextVersion(c, doc)
 	return J{"textDocument": J{"uri": doc.URI, "languageId": "hledger", "version": doc.LSPVer, "text": text}}
 }
